@@ -103,6 +103,7 @@ T_STALL = 0.1       # relay timeouts in cases where the script makes the relay w
 T_FAST = 0.3        # relay timeouts elsewhere (nothing in the script makes the relay wait)
 K = 8               # watchdog = K x timeout
 BATCH = {'smtp': 40, 'mx': 20, 'http': 20, 'pipe': 8}
+CONFIRM_EACH = 4    # isolated confirmations per mechanism and shard before batch sightings are taken as seen
 
 # ------------------------------------------------------------------------------------------------
 # process-wide helpers
@@ -774,8 +775,10 @@ def _http_server():
 HDRS = collections.OrderedDict([
     ('none', None),
     ('250', b'250; message="2.6.0 Message accepted for delivery"'),
-    ('450', b'450; message="4.2.0 try again later"; command="RCPT"'),
+    ('450', b'450; message="4.2.0 try again later"'),
     ('550', b'550; message="5.1.1 no such user"'),
+    ('450-command', b'450; message="4.2.0 try again later"; command="RCPT"'),
+    ('550-command', b'550; message="5.1.1 no such user"; command="RCPT"'),
     ('unparsable-text', b'well this is not a reply'),
     ('unparsable-999', b'999; message="9.9.9 out of range"'),
     ('unparsable-2digit', b'25; message="short"'),
@@ -797,10 +800,10 @@ HTTP_CONN_FAULTS = collections.OrderedDict([
 def expect_http(status, hdr):
     ok = 200 <= status < 300
     if ok:
-        return '?' if hdr in ('450', '550') else 'D'
-    if hdr == '450':
+        return '?' if hdr[:3] in ('450', '550') else 'D'
+    if hdr[:3] == '450':
         return 'T'
-    if hdr == '550':
+    if hdr[:3] == '550':
         return 'P'
     return 'F'
 
@@ -1078,6 +1081,7 @@ def labels(case):
 def classify(clause, case, m, extra='', crashes=()):
     k, fam, outcome, pl = labels(case)
     res = m['result']
+    oc = case.get('oclass', outcome) if case['kind'] == 'smtp' else outcome     # coarse outcome for unknown causes
     if clause == 'type':
         exc = res.get('type', '?')
         if res['end'] == 'raised-other':
@@ -1089,12 +1093,12 @@ def classify(clause, case, m, extra='', crashes=()):
                 return 'type/pipe/non-utf8-program-output->UnicodeDecodeError'
             if k == 'pipe' and exc == 'TypeError' and case['cls'] == 'dovecot':
                 return 'type/pipe/dovecot-nonzero-exit-with-output->TypeError'
-            return 'unclassified/type/%s/%s/%s/raised-%s' % (k, fam, outcome, exc)
+            return 'unclassified/type/%s/%s/%s/raised-%s' % (k, fam, oc, exc)
         if res['end'] == 'returned-error-object':
-            if k == 'pipe':
-                return 'type/pipe/%s-returns-error-object-instead-of-raising' % case['cls']
-            return 'unclassified/type/%s/%s/%s/returned-error-object' % (k, fam, outcome)
-        return 'unclassified/type/%s/%s/%s/%s' % (k, fam, outcome, extra or res['end'])
+            if k == 'pipe' and case['cls'] in ('pipe-single', 'maildrop'):
+                return 'type/pipe/single-mode-returns-error-object-instead-of-raising'
+            return 'unclassified/type/%s/%s/%s/returned-error-object' % (k, fam, oc)
+        return 'unclassified/type/%s/%s/%s/%s' % (k, fam, oc, extra or res['end'])
     if clause == 'ends':
         if k in ('smtp', 'lmtp') and case['pipelining'] and any(
                 stage_family(f['stage']) == 'eod' and (f['action'][0] == 'stall' or (
@@ -1105,7 +1109,7 @@ def classify(clause, case, m, extra='', crashes=()):
             died = sorted(set(crashes))
             if died == ['ValueError'] and 'unparsable-999' in outcome:
                 return 'attempt-does-not-end/http/X-Smtp-Reply-out-of-range-code->ValueError'
-            if died == ['AttributeError'] and b'command=' in (case['script'][0][3] or b''):
+            if died == ['AttributeError'] and outcome.endswith('-command'):
                 return 'attempt-does-not-end/http/X-Smtp-Reply-command-param->AttributeError'
             if died == ['ResponseNotReady'] and case.get('reuse') and m['label'] == 'msg2':
                 return 'attempt-does-not-end/http/reused-connection-previous-response-unread->ResponseNotReady'
@@ -1116,7 +1120,7 @@ def classify(clause, case, m, extra='', crashes=()):
             if not died and 'stall' in outcome:
                 return 'attempt-does-not-end/http/timeout-swallowed-result-never-set'
             return 'unclassified/attempt-does-not-end/http/%s/%s/%s' % (case['stage'], outcome, '+'.join(died) or '-')
-        return 'unclassified/attempt-does-not-end/%s/%s/%s/%s' % (k, fam, outcome, pl)
+        return 'unclassified/attempt-does-not-end/%s/%s/%s/%s' % (k, fam, oc, pl)
     if clause == 'safety':
         if k in ('smtp', 'lmtp'):
             wc = sorted(set(stage_family(f['stage']) for f in case['faults']
@@ -1124,11 +1128,15 @@ def classify(clause, case, m, extra='', crashes=()):
                             and stage_family(f['stage']) in ('rcpt', 'eod')))
             if wc:
                 return 'unsafe-delivered/smtp+lmtp/%s-reply-1xx-or-3xx-taken-as-accepted' % '+'.join(wc)
-        return 'unclassified/unsafe-delivered/%s/%s/%s' % (k, fam, outcome)
+        return 'unclassified/unsafe-delivered/%s/%s/%s' % (k, fam, oc)
     if clause == 'class':
-        return 'unclassified/wrong-class/%s/%s/%s/%s' % (k, fam, outcome, extra)
+        if k == 'http' and outcome.endswith('-command') and "no attribute 'decode'" in str(res['per']):
+            return 'wrong-class/http/X-Smtp-Reply-command-param->AttributeError-reported-as-transient'
+        return 'unclassified/wrong-class/%s/%s/%s/%s' % (k, fam, oc, extra)
     if clause == 'complete':
-        return 'unclassified/accepted-but-reported-failed/%s/%s/%s' % (k, fam, outcome)
+        if k == 'http' and 'unparsable-999' in outcome:
+            return 'accepted-but-reported-failed/http/X-Smtp-Reply-out-of-range-code'
+        return 'unclassified/accepted-but-reported-failed/%s/%s/%s' % (k, fam, oc)
     if clause == 'mx-host':
         return 'unclassified/mx-host-choice/%s/%s' % (fam, outcome)
     return 'unclassified/%s/%s/%s/%s' % (clause, k, fam, outcome)
@@ -1381,7 +1389,15 @@ def run_case(case, R):
                                         {r: p['v'] for r, p in m['result']['per'].items()}, m['accepted'])
                                        for m in obs['msgs']]})
             continue
-        # something to report: the isolated re-execution is authoritative
+        # something to report: the isolated re-execution is authoritative -- until the same mechanism has been
+        # confirmed alone CONFIRM_EACH times in this shard; further batch sightings of it are then reported as seen
+        conf = _G.setdefault('confirmed', collections.Counter())
+        mechs1 = set(mech for mech, _, _ in V1)
+        if 'inconclusive' not in mechs1 and all(conf[mech] >= CONFIRM_EACH for mech in mechs1):
+            R.count('batch-sightings-of-confirmed-mechanisms')
+            _account(sub, obs, R)
+            _report(sub, obs, judge(sub, obs, R), R)
+            continue
         R.count('isolated-confirmations')
         try:
             obs2, V2 = run_one(sub, R)
@@ -1389,6 +1405,8 @@ def run_case(case, R):
             import traceback
             R.inconclusive('harness-exception: ' + traceback.format_exc(limit=5)[-300:])
             continue
+        for mech in set(mech for mech, _, _ in V2):
+            conf[mech] += 1
         lost = set(mech for mech, _, _ in V1) - set(mech for mech, _, _ in V2)
         for mech in sorted(lost):
             R.inconclusive('seen-in-batch-not-reproduced-alone: ' + mech)
